@@ -238,7 +238,7 @@ func streamWorkload(w *W, idx int, writers, txnsPer int, snapshots int) *streamR
 							row := b<<14 + 1 + uint32(rng.Intn(5))
 							ws := []Write{put(own, tx), add("m", 1+int64(wi))}
 							if rng.Intn(3) == 0 {
-								ws = append(ws, add("im", int64(1+rng.Intn(5))))
+								ws = append(ws, add("im", int64(rng.Intn(6)))) // a zero delta is not the identity of v*3+d
 							}
 							if rng.Intn(4) == 0 {
 								ws = append(ws, put("x", tx*(1-2*int64(rng.Intn(2)))))
@@ -249,7 +249,7 @@ func streamWorkload(w *W, idx int, writers, txnsPer int, snapshots int) *streamR
 							if rng.Intn(2) == 0 {
 								// a merge on a column of one of the other numeric kinds (small deltas: exact in float32)
 								nc := streamNumCols[rng.Intn(len(streamNumCols))]
-								ws = append(ws, addK(nc.Name, nc.Kind, int64(1+rng.Intn(3))))
+								ws = append(ws, addK(nc.Name, nc.Kind, int64(rng.Intn(4)))) // incl. zero deltas (onto "no value": the cell then holds 0)
 							}
 							if rng.Intn(3) == 0 {
 								// order-sensitive record merge (user merge function, decode/merge/encode) - rows of all three blocks
